@@ -14,15 +14,17 @@ OWN_ACTIONS = ("Create", "CreateMTag", "CreateFeature", "CreateProperty", "Delet
 
 def run(tier, seed, verdict):
     quick = tier != "thorough"
-    run_ = mr.ModelRun("MC_C03_quick.cfg" if quick else "MC_C03.cfg", seed,
+    # (thorough: the same bounded graph without stride, and five times the walks; MC_C03.cfg - one object more - does
+    # not finish within the TLC time limit when every transition is replayed with four probes)
+    run_ = mr.ModelRun("MC_C03_quick.cfg", seed,
                        probes=("dead_ids", "lookups", "reopen", "lookups"), name_pools=[0, 1, 2, 3, 4, 5],
-                       stride=3 if quick else 2).run()
+                       stride=3 if quick else 1).run()
     tlc = run_.res
     if tlc.violation is not None:
         verdict.violation("tlc/" + tlc.violation[:80], {"tlc": tlc.violation, "trace": tlc.error_trace[:60]})
     # random walks over create / delete churn (TLC -simulate): names re-used after deletion many times in one session
     sim = mr.ModelRun("MC_SimChurn.cfg", seed + 1, probes=("dead_ids", "lookups", "reopen", "lookups"),
-                      name_pools=[0, 1, 2, 3, 4, 5], simulate="num=%d" % (60 if quick else 600), depth=32).run()
+                      name_pools=[0, 1, 2, 3, 4, 5], simulate="num=%d" % (60 if quick else 300), depth=32).run()
     # link lists over a source tree whose levels re-use names: by-name lookups must find the linked entity
     shadow = mr.ModelRun("MC_C03_shadow.cfg", seed + 2, probes=("lookups", "reopen", "lookups"), name_pools=[0, 1, 2],
                          stride=1, accept=lambda tx: tx["act"]["name"] in ("LinkAppend", "LinkRemove")).run()
